@@ -468,7 +468,7 @@ def ch_manifest_lex(ctx, bodies_out: list | None = None) -> Channel:
         "& < > \" ' (or a typed-attribute comparison); distinct by full case"))
     rng = ctx.rng("manifest_lex")
     cases = corpus_cases() + fixed_cases()
-    n = ctx.scale(450, 4500)
+    n = ctx.scale(340, 4500)
     cases += [W.gen_case(rng, hostile=rng.random() < .8) for _ in range(n)]
     lex_lines, lex_meta = [], []
     for case in cases:
@@ -520,10 +520,13 @@ def ch_manifest_lex(ctx, bodies_out: list | None = None) -> Channel:
         st = case["stored"]
         title = st.get("title", st.get("mps_title"))
         if title is not None:
-            m = re.search(r"<Title>(.*?) ?</Title>", text, re.S)
+            m = re.search(r"<Title>(.*?)</Title>", text, re.S)
             if m:
+                raw = m.group(1)
+                if case["manifest"] == "hand_made.mpd" and raw.endswith(" "):
+                    raw = raw[:-1]             # the template writes "{{ title|xmlSafe }} "
                 lex_lines.append(f"xmlsafe {hx(title)}")
-                lex_meta.append(("raw", case, "Title", "text", m.group(1), title))
+                lex_meta.append(("raw", case, "Title", "text", raw, title))
         ident = st.get("mps_name") if case["kind"] == "multi" else st.get("directory")
         if ident is not None:
             m = re.search(r"<MPD\b[^>]*?\sid=\"([^\"]*)\"", text, re.S)
@@ -801,7 +804,7 @@ def search(ctx, disagreements):
             if not _escape_ok(s, f):
                 return {"kind": "escape", "function": f, "string": s}
     cases = list(seeds) + fixed_cases()
-    n = 1500 if ctx.thorough else 500
+    n = 1500 if ctx.thorough else 250
     for i in range(n):
         force = forced[i % len(forced)] if forced and i % 2 == 0 else None
         c = W.gen_case(rng, hostile=True, force=force)
